@@ -25,8 +25,8 @@ def tt(a, dtype=None):
     return torch.tensor(np.asarray(a), dtype=dtype or NATIVE_DTYPE[0])
 
 
-def ensure(h, ctx, label, goal, meta=None):
-    ctx.oblige("ensures", goal, label=label, loc=("contract", h.hid.split("[")[0], 0), meta=meta)
+def ensure(h, ctx, label, goal, meta=None, hyps=None):
+    ctx.oblige("ensures", goal, label=label, loc=("contract", h.hid.split("[")[0], 0), meta=meta, hyps=hyps)
     if label == "C12.row-independent" and not ctx.notes.get("_norandom_done") and not getattr(h, "draws_allowed", False):
         # evaluation consumed no random numbers: a draw (dropout mask, noise) is shared state of the batch - its value for one row depends on
         # the position of the row and on the size of the batch
